@@ -350,6 +350,30 @@ def run(ctx):
         run_cfg(ctx, ctx.prog(cfg), cfg)
 
 
+def rule_names_inside_window(ctx, p, cfg, rid="R15"):
+    """No file outside the names the roller manages is created, modified or removed: apart from the shift loop (whose indices
+    R2 bounds), every file-system step of rotate() that names a pattern-derived file names pattern(base)."""
+    with ctx.rule(rid, "steps outside the shift loop touch pattern(base) only", cfg) as r:
+        ro = roles(p)
+        rot = ro["rotate"]
+        pr = rotate_params(p)
+        vars_ = {"base": ("param", pr["base"]), "count": ("param", pr["count"])}
+        n = 0
+        for c in rot.calls():
+            cal = c.callee or ""
+            if rot.in_loop(c.block) or not (cal in FS_MUTATORS or cal in (ro["move_file"].path, ro["compress"].path)):
+                continue
+            for i, a in enumerate(c.arg_exprs()):
+                io = index_of(a)
+                if not io:
+                    continue
+                n += 1
+                lf = linear(io[0], vars_)
+                r.require(lf == {"base": 1}, "index-is-base:%s:arg%d" % (common.role(c), i), fn=rot, site=c.at, detail="%s on pattern(%s)" % (cal.rsplit("::", 1)[-1], show(io[0], 4)),
+                          fail_detail="%s is applied to pattern(%s) outside the shift loop: a name that is not pattern(base) - e.g. the index just past the window, which the roller does not own" % (cal, show(io[0], 4)))
+        r.floor("named-steps-outside-the-loop", n, 2)
+
+
 def rule_roll_moves_file(ctx, p, cfg, rid="R11"):
     """Roll::roll may report success only after the rolled file has left its path (renamed into staging / shifted into the
     window / removed): a roll that returns Ok with the file still in place makes the caller reopen and keep growing it."""
@@ -412,6 +436,31 @@ def rule_archive_writes_surface(ctx, p, cfg, rid="R13"):
                           detail="every non-error return after the construction passed a checked flush()/into_inner()",
                           fail_detail="%s wraps an archive file in %s and lets it drop: the buffered tail is written in Drop, where a write error is discarded, and the step goes on to remove its source" % (
                               path.rsplit("::", 1)[-1], cal.split("::<")[0].rsplit("::", 1)[-1]))
+        # a compressing encoder ends its frame in finish(): that is where the last bytes are written and where a full disk shows.
+        # Its result has to be looked at before the source is removed; an encoder left to finish in Drop (auto_finish, or
+        # simply dropped) throws that error away
+        ne = 0
+        for path, f in sorted(p.fns.items()):
+            if "append::rolling_file::policy::compound::roll::" not in path or "Derive" in (f.d.get("exp") or ""):
+                continue
+            encs = [c for c in f.calls() if (c.callee or "").rsplit("::", 1)[-1] in ("new", "with_dictionary", "with_prepared_dictionary") and "Encoder" in (c.callee or "")
+                    and ((c.callee or "").startswith("zstd::") or (c.callee or "").startswith("flate2::"))]
+            auto = [c for c in f.calls() if (c.callee or "").rsplit("::", 1)[-1] in ("auto_finish", "on_finish")]
+            r.require(not auto, "no-finish-in-drop:%s" % path.rsplit("::", 1)[-1], fn=f, site=(auto[0].at if auto else None), detail="encoders finished in Drop in %s: %d" % (path.rsplit("::", 1)[-1], len(auto)),
+                      fail_detail="%s hands the frame's end to Drop (%s): the error of the last write is discarded and the step goes on to remove its source" % (path.rsplit("::", 1)[-1], auto[0].callee if auto else ""))
+            for c in encs:
+                ne += 1
+                fam = (c.callee or "").split("::", 1)[0]
+                closers = [x for x in f.calls() if (x.callee or "").startswith(fam + "::") and (x.callee or "").rsplit("::", 1)[-1] in ("finish", "try_finish")
+                           and f.can_reach(c.block, x.block) and common.result_is_checked(f, x)]
+                rets = {b for b, e in q.ret_assignments(f) if q.classify_ret(e) != "err" and not q.is_from_residual(e)}
+                # only the returns of this encoder's arm: those its construction can reach
+                rets = {b for b in rets if f.can_reach(c.block, b)}
+                ok = bool(closers) and not q.skipping_paths(f, c.block, {x.block for x in closers}, rets)
+                r.require(ok, "encoder-finished-and-checked:%s/%s" % (path.rsplit("::", 1)[-1], common.role(c)), fn=f, site=c.at,
+                          detail="every non-error return after the encoder was built passed a checked finish()",
+                          fail_detail="an archive compressed through %s can be reported as written without finish() having been checked" % (c.callee or "").split("::<")[0])
+        r.ok("encoders", detail="compressing encoders constructed in the roller modules: %d" % ne)
         # and the bytes reach it through whole-buffer operations: a bare Write::write may take less than it was offered
         partial = [(f, c) for path, f in sorted(p.fns.items()) if "append::rolling_file::policy::compound::roll::" in path and "Derive" not in (f.d.get("exp") or "")
                    for c in f.calls("std::io::Write::write")]
@@ -560,6 +609,7 @@ def run_cfg(ctx, p, cfg):
     rule_roll_moves_file(ctx, p, cfg, "R11")
     rule_staging_name(ctx, p, cfg, "R12")
     rule_one_rotation_at_a_time(ctx, p, cfg, "R14")
+    rule_names_inside_window(ctx, p, cfg, "R15")
     rule_archive_writes_surface(ctx, p, cfg, "R13")
 
     rule_directories(ctx, p, cfg, "R10")
